@@ -8,7 +8,7 @@
    -> value-info -> attributes -> node -> graph/scoping -> function -> model. *)
 From Coq Require Import ZArith NArith List Bool.
 From IRV Require Import Base.Exn Gen.C02Gen C02.Model C02.Model2 C02.Norm C02.Proofs1 C02.Proofs2 C02.Proofs3.
-From IRV Require Import C02.ProofsFuel C02.ProofsDepth C02.ProofsG14 C02.ProofsG17 C02.ProofsG18.
+From IRV Require Import C02.ProofsFuel C02.ProofsDepth C02.ProofsG14 C02.ProofsG17 C02.ProofsG18 C02.ProofsG19 C02.ProofsG20.
 From Coq Require Import Lia PeanoNat.
 Import ListNotations.
 Open Scope Z_scope.
@@ -182,9 +182,33 @@ Theorem C02_function_roundtrip :
              /\ exists q, ser_function fuel' irv fn = Ok (q, []) /\ norm_function q = norm_function f.
 Proof.
   intros f allow_dev irv n fuel' Hw Hd Hf Hi.
-  exact (function_roundtrip_fuel f allow_dev _ irv n fuel' Hw Hd Hf Hi eq_refl).
+  exact (function_roundtrip_fuel f allow_dev _ (Some irv) n fuel' Hw Hd Hf Hi).
 Qed.
 Print Assumptions C02_function_roundtrip.
+
+(* Entry point for a standalone AttributeProto (from_proto / to_proto on an attribute): every kind but
+   sparse, reference attributes, graph-valued attributes of any nesting depth (read in an empty scope stack),
+   a value sub-message that is present but empty as well as an absent one. *)
+Theorem C02_attr_roundtrip :
+  forall a : AttrP GraphP, wf_attr_top a = true ->
+  exists q, roundtrip_attr a = Ok q /\ norm_attr_top q = norm_attr_top a.
+Proof. exact attr_entry_roundtrip. Qed.
+Print Assumptions C02_attr_roundtrip.
+
+Example C02_attr_example :   (* a GRAPH attribute whose `g` is present but empty, and one with a real subgraph *)
+  wf_attr_top (mkAttrP (Some [98%N]) None None (Some AttributeType_GRAPH) (AG empty_graph)) = true
+  /\ wf_attr_top (mkAttrP (Some [98%N]) None (Some [100%N]) (Some AttributeType_GRAPH)
+        (AG (mkGraphP None None [] [] [mkNodeP [] [[122%N]] None (Some [82%N]) None None None [] [] []]
+                      [mkVInfoP (Some [122%N]) (TUnset None) None []] [] [] []))) = true.
+Proof. split; reflexivity. Qed.
+
+(* Entry point for a standalone FunctionProto (serde.deserialize_function / serialize_function with
+   create_value_info=True and no model IR version). *)
+Theorem C02_function_entry_roundtrip :
+  forall f : FunctionP, wf_function true true f = true ->
+  exists q, roundtrip_function f = Ok q /\ norm_function q = norm_function f.
+Proof. exact function_entry_roundtrip. Qed.
+Print Assumptions C02_function_entry_roundtrip.
 
 (* Stage 8 = the principal theorem.  Models: IR version 3..13, opset imports (a dict), producer fields,
    model_version, doc string, metadata, the main graph, the functions table, device configurations at
